@@ -118,6 +118,16 @@ Proof.
   split; [exact (links_exts_sym_pal pay K st HK1 T _ Hok HL) | exact (links_exts_closed pay K st T _ Hok HL)].
 Qed.
 Print Assumptions direct_table_hyps.
+Theorem edges_are_observed_direct_all K st thr mode (lreads : list lread) order g :
+  4 <= K -> Forall (fun r => wf_dna (fst r)) lreads -> NoDup order ->
+  direct K st thr mode 0 lreads order = Some g ->
+  Permutation (graph_kmers K st g) (retained K st thr (map fst lreads)) /\
+  (forall w, In w (graph_links K st g) <-> In w (spec_links K st thr (map fst lreads))) /\
+  (forall w, In w (graph_links K st g) <-> In w (observed_adjs K st (N.to_nat thr) (map fst lreads))).
+Proof.
+  intros HK Hwf Hnd Hd. destruct (edges_are_observed_direct K st thr mode lreads order g HK Hwf Hnd Hd) as [H1 H2].
+  split; [exact H1|]. split; [exact H2|]. exact (edges_are_observed_direct' K st thr mode lreads order g HK Hwf Hnd Hd).
+Qed.
 Print Assumptions sharded_eq_direct_partial2.
 Print Assumptions graph_rc_invariant_direct_total.
 Print Assumptions edges_are_observed_direct'.
